@@ -424,3 +424,45 @@ def c_hasher_write(m, st, f, a):
 @contract(r'^<.* as Hasher>::write_(u8|u16|u32|u64|usize|i32|i64)$', 3)
 def c_hasher_write_int(m, st, f, a):
     _hasher(a[0]).log.append(('write_' + f.rsplit('_', 1)[1], a[1].e)); return UNIT
+
+
+# ---------------------------------------------------------------------------------------------- format! (subset)
+@contract(r'fmt::rt::Argument::<.*>::new_(display|debug)::<', 2)
+def c_fmt_arg(m, st, f, a):
+    return Opaque('fmtarg', ('display' if 'new_display' in f else 'debug', a[0]))
+
+
+@contract(r'^(std::fmt::|core::fmt::)?Arguments::<.*>::new::<\d+, \d+>$|^(std::fmt::|core::fmt::)?Arguments::<.*>::new_const::<', 2)
+def c_fmt_arguments(m, st, f, a):
+    tpl = sv(a[0])
+    bs = [x.e for x in tpl.f] if isinstance(tpl, Agg) else list(tpl.bytes())
+    args = list(sv(a[1]).f) if len(a) > 1 else []
+    return Opaque('fmtargs', (tuple(bs), tuple(args)))
+
+
+def render_fmt(m, st, fa):
+    """nightly's compact format template: 0x00 end, 0xC0 next argument (default formatting), n < 0x80 a literal of n bytes"""
+    tpl, args = fa.data
+    out, i, k = [], 0, 0
+    while i < len(tpl):
+        b = tpl[i]
+        if b == 0: break
+        if b == 0xC0:
+            kind, x = args[k].data; k += 1; i += 1
+            if kind != 'display': raise Inconclusive('format!: {:?} argument')
+            x = sv(x)
+            if isinstance(x, IntV):
+                c = conc_int(x)
+                if c is None: raise Inconclusive('format!: symbolic integer')
+                out.extend(str(c).encode())
+            else: out.extend(as_str(x).bytes())
+        elif b < 0x80:
+            out.extend(tpl[i + 1:i + 1 + b]); i += 1 + b
+        else:
+            raise Inconclusive('format!: formatting options are not modelled (template byte %#x)' % b)
+    return StrV(tuple(out))
+
+
+@contract(r'^(std|alloc|core)::fmt::format$', 2)
+def c_fmt_format(m, st, f, a):
+    return render_fmt(m, st, a[0])
